@@ -4,7 +4,8 @@ usage: seed_prompts.py <round> <Cxx> ...   -> /tmp/seedprompts<round>/<Cxx>.txt,
 import json, glob, os, subprocess, sys
 
 def main():
-    rnd = sys.argv[1]; pids = sys.argv[2:]
+    rnd = sys.argv[1]; pids = [a for a in sys.argv[2:] if not a.startswith("--")]
+    generated = "--generated" in sys.argv
     props = {json.loads(l)['id']: json.loads(l) for l in open('/verif/properties.jsonl')}
     prev = {}
     for d in sorted(glob.glob('/verif/seeded/*/meta.json')):
@@ -18,6 +19,7 @@ def main():
         demo = "a demo integration test that you write, %s/rspirv/tests/seeded_demo.rs, using only the public API of the crates," % wt
         if pid == "C20":
             demo = "a demo that you write — EITHER an integration test %s/rspirv/tests/seeded_demo.rs using only the public API, OR (if the change is only observable through the rspirv-dis binary in %s/dis, e.g. a change to dis/main.rs) a shell script %s/seeded_out/demo.sh that builds the binary with CARGO_TARGET_DIR=%s/target, runs it on files it creates and exits non-zero iff the property is violated —" % (wt, wt, wt, wt)
+        GENHINT = (" THIS TIME, if the property involves any machine-generated source file (files named autogen_*.rs under rspirv/ or spirv/ — grammar tables, operand decoding/parsing, the Operand enum and its helpers, Builder methods, lift code, enum conversions), make your change IN SUCH A GENERATED FILE: a single table row, match arm, constant, range, field or operand order that a regeneration glitch or a hand edit could plausibly produce; only if the property touches no generated file at all, choose a hand-written one.") if generated else ""
         txt = f"""You are working in a scratch git worktree of the Rust project gfx-rs/rspirv at {wt} (a SPIR-V toolkit: binary parser/decoder, assembler, disassembler, data representation with a Builder, lift to a structured representation). Work ONLY inside {wt}. Do not read or touch /repo or /verif. IMPORTANT: do NOT use `git stash` (the stash is shared between several worktrees of this repository that other people are using right now); to test with and without your change use `git diff -- <files> > seeded_out/patch.diff`, `git apply -R seeded_out/patch.diff`, `git apply seeded_out/patch.diff`.
 
 Below is a semantic property of this code base that is supposed to hold. Your job is to play a maintainer who makes ONE small, realistic slip — the kind of change that passes review: an off-by-one, a wrong guard, a swapped pair of arguments, a lost case in a match, a 'simplification' that drops a check, a wrong constant, a refactor that changes order or a boundary — in the NON-TEST library source (hand-written or generated .rs files both count), such that the property is BROKEN for some inputs, while:
@@ -25,7 +27,7 @@ Below is a semantic property of this code base that is supposed to hold. Your jo
  (b) the project's existing test suite still passes unchanged:  cd {wt} && CARGO_TARGET_DIR={wt}/target CARGO_NET_OFFLINE=true cargo test --workspace --offline   (run it with your demo file moved aside)
  (c) {demo} FAILS with your change and PASSES without it (check both). An integration test is run with: cargo test --offline -p rspirv --test seeded_demo
 
-Make the change subtle rather than blatant: prefer a change whose effect shows only on particular inputs (a specific opcode or enumerant, operand shape, value range, history of calls, boundary value, unusual-but-legal input, a less used public entry point or method of the same functionality, an interaction between two features, a clause of the property that is easy to forget) over one that breaks everything; try to pick a spot in the code that a tester who generates 'typical' inputs — or who samples a large table instead of covering it — would be unlikely to exercise. Read the property statement clause by clause and look for a clause none of the earlier changes attacked. It must be a DIFFERENT change, in a different function if possible, from these earlier ones for the same property: {json.dumps(prev.get(pid, []))}
+Make the change subtle rather than blatant: prefer a change whose effect shows only on particular inputs (a specific opcode or enumerant, operand shape, value range, history of calls, boundary value, unusual-but-legal input, a less used public entry point or method of the same functionality, an interaction between two features, a clause of the property that is easy to forget) over one that breaks everything; try to pick a spot in the code that a tester who generates 'typical' inputs — or who samples a large table instead of covering it — would be unlikely to exercise. Read the property statement clause by clause and look for a clause none of the earlier changes attacked.{GENHINT} It must be a DIFFERENT change, in a different function if possible, from these earlier ones for the same property: {json.dumps(prev.get(pid, []))}
 
 PROPERTY {pid}: {p['title']}
 Statement: {p['statement']}
